@@ -24,6 +24,10 @@ var (
 
 func main() {
 	flag.Parse()
+	if *out != "" && *prop == "C19mgr" {
+		mainMgr(*seed, *n, *out, *par)
+		return
+	}
 	if *out == "" || *prop != "C19" {
 		fmt.Fprintln(os.Stderr, "usage: avahidrv -prop C19 -seed S -n N -out file")
 		os.Exit(2)
